@@ -53,8 +53,10 @@ func (ICS20Scenario) Generate(rng *rand.Rand, focus, tier string) kernel.Plan {
 			add("param", rng.Int63n(2))
 		case x < 90:
 			add("destroy")
-		case x < 94:
+		case x < 93:
 			add("multihop", rng.Int63n(4))
+		case x < 95:
+			add("evmcall", rng.Int63n(2))
 		default:
 			add("back", rng.Int63n(4))
 		}
@@ -193,6 +195,17 @@ func (w *icsWorld) apply(op kernel.Op) {
 		w.coord.CommitBlock(w.b)
 		w.aggOn = on
 		w.rec.Logf("aggregate module enabled=%v", on)
+	case "evmcall":
+		// contract calls are switched off / on in the EVM module (a governance parameter): conversions then
+		// fail cleanly, the transfer itself is unaffected
+		on := op.Arg(0) == 0
+		ps := w.bApp.EvmKeeper.GetParams(w.b.GetContext())
+		ps.EnableCall = on
+		w.bApp.EvmKeeper.SetParams(w.b.GetContext(), ps)
+		w.coord.CommitBlock(w.b)
+		w.fix()
+		w.rec.Fault("gov.evm_enable_call")
+		w.rec.Logf("evm EnableCall=%v", on)
 	case "multihop":
 		w.multihop(op)
 	case "destroy":
@@ -222,6 +235,12 @@ func (w *icsWorld) balances(who sdk.AccAddress) (voucherUser, voucherModule sdk.
 	voucherUser = w.bApp.BankKeeper.GetBalance(ctx, who, w.voucher).Amount
 	voucherModule = w.bApp.BankKeeper.GetBalance(ctx, authtypes.NewModuleAddress(aggregatetypes.ModuleName), w.voucher).Amount
 	tokenUser = new(big.Int)
+	defer func() {
+		// a view call that panics inside the keeper (instead of returning an error) reads as "no balance"
+		if r := recover(); r != nil {
+			w.rec.Probe("ics20.view_call_panicked")
+		}
+	}()
 	if p, ok := w.pair(); ok {
 		res, err := w.bApp.AggregateKeeper.CallEVM(ctx, erc20ABI, aggregatetypes.ModuleAddress, common.HexToAddress(p.ERC20Address), "balanceOf", common.BytesToAddress(who))
 		if err == nil {
@@ -412,13 +431,19 @@ func (w *icsWorld) receive(packet channeltypes.Packet, amt sdk.Int, kind string,
 			proof, proofHeight = w.path.EndpointA.QueryProof([]byte(packetKey))
 			recvMsg = channeltypes.NewMsgRecvPacket(packet, proof, proofHeight, w.userB.String())
 			w.fix()
-			if _, err := w.b.SendMsgs(recvMsg); err != nil {
-				w.rec.HarnessFail("MsgRecvPacket rejected after an out-of-gas attempt: " + err.Error())
+			if err := w.deliverWithGas(10_000_000, recvMsg); err != nil {
+				w.rec.Violate("C16", "receive_rejected", "after_out_of_gas:"+w.regState(), "MsgRecvPacket relayed again with ample gas failed: %s", firstLine(err.Error()))
 				return
 			}
 		}
-	} else if _, err := w.b.SendMsgs(recvMsg); err != nil {
-		w.rec.HarnessFail("MsgRecvPacket rejected: " + err.Error())
+	} else if err := w.deliverWithGas(10_000_000, recvMsg); err != nil {
+		// the transfer application alone handles this packet (it produced an acknowledgement on the same state):
+		// a receive that fails as a whole means the middleware broke it
+		cls := "other"
+		if strings.Contains(err.Error(), "panic") || strings.Contains(err.Error(), "nil pointer") {
+			cls = "panic"
+		}
+		w.rec.Violate("C16", "receive_rejected", cls+":"+w.regState(), "MsgRecvPacket of a packet the transfer application accepts (success=%v) failed as a whole: %s", wantAck != nil && wantAck.Success(), firstLine(err.Error()))
 		return
 	}
 	_ = w.path.EndpointA.UpdateClient()
